@@ -86,7 +86,7 @@ def uf_shape_value(st, base, args, shape):
     """A value of `shape` determined by the z3 terms `args` (uninterpreted functions named after `base`)."""
     base = f"{base}/{'.'.join(str(t.sort())[0] for t in args)}"  # one function per signature
 
-    def mk(shp, path, args):
+    def mk(shp, path, args, nested=False):
         dom = [t.sort() for t in args]
         if isinstance(shp, S._Int):
             e = z3.Function(f"{base}{path}", *dom, z3.IntSort())(*args)
@@ -130,7 +130,9 @@ def uf_shape_value(st, base, args, shape):
             st.assume(n >= shp.min_len)
             if shp.max_len is not None:
                 st.assume(n <= shp.max_len)
-            getter = lambda i, shp=shp, path=path, args=args: mk(shp.elem, path + "[]", list(args) + [V._z(i)])  # noqa: E731
+            # (an element that is itself a list is a ROW of a nested list: an immutable sequence value, held by value,
+            #  exactly as seqs.fresh_seq models the rows of a fresh nested list -- see `nested` below)
+            getter = lambda i, shp=shp, path=path, args=args: mk(shp.elem, path + "[]", list(args) + [V._z(i)], nested=True)  # noqa: E731
             psum = None
             if isinstance(shp.elem, S._Int):
                 # prefix-sum model field of an integer list, as for fresh sequences (seqs.fresh_seq): the
@@ -165,6 +167,27 @@ def uf_shape_value(st, base, args, shape):
                         for c, f in cfns.items():
                             V.cur().assume(f(*args, zi + 1) == f(*args, zi) + V._z(v[c]))
                         return v
+            elif isinstance(shp.elem, S.Union):
+                # variant records (layout segments (cols, offs) | (cols, offs, end) | (cols, offs, bytes)): component
+                # prefix sums for the plain-int components EVERY alternative has at the same position -- the same model
+                # field seqs.fresh_seq gives a fresh list of such elements (summand: the non-forking selection
+                # seqs.elt_comp over the alternatives), defining equation instantiated at every index that is read
+                from .seqs import elt_comp
+
+                ualts = shp.elem.cases()
+                ucomps = []
+                if ualts and all(isinstance(a_, S.Tup) for a_ in ualts):
+                    ucomps = [c for c in range(min(len(a_.items) for a_ in ualts)) if all(isinstance(a_.items[c], S._Int) for a_ in ualts)]
+                cfns = {c: z3.Function(f"{base}{path}#psum{c}", *dom_of(args), z3.IntSort(), z3.IntSort()) for c in ucomps}
+                if cfns:
+                    var_get = getter
+
+                    def getter(i, cfns=cfns, var_get=var_get, args=args):  # noqa: F811
+                        v = var_get(i)
+                        zi = V._z(i)
+                        for c, f in cfns.items():
+                            V.cur().assume(f(*args, zi + 1) == f(*args, zi) + V._z(elt_comp(v, c)))
+                        return v
 
             seq = SSeq(mk_int(n), getter, shp.elem, psum, f"{base}{path}")
             for c, f in cfns.items():
@@ -180,6 +203,11 @@ def uf_shape_value(st, base, args, shape):
                     return mk_int(f(*args, V._z(k)))
 
                 seq.cpsum[c] = cps
+            if nested:
+                # a row of a nested list: a value (not a list object), identified by the function it is an application of
+                # and its argument terms -- a deterministic function of a row is a function of this identity (encode_arg)
+                seq.row_id = (f"{base}{path}", tuple(args))
+                return seq
             return seq if shp.tuple_ else LRef(seq)
         raise Unsupported(f"uninterpreted result of shape {shp!r}")
 
@@ -204,11 +232,11 @@ class Protocol:
     has: dict = {}  # hasattr answers: name -> True/False/None(unknown => uninterpreted)
 
     def version(self, st, recv):
-        return st.ghost.setdefault("ver", {}).get(str(recv.e), 0)
+        return st.ghost.setdefault("ver", {}).get(V.zstr(recv.e), 0)
 
     def bump(self, st, recv):
         d = st.ghost.setdefault("ver", {})
-        d[str(recv.e)] = st.counter + 1000
+        d[V.zstr(recv.e)] = st.counter + 1000
         st.counter += 1
 
     def uf_value(self, st, name, recv, argterms, shape, ver):
@@ -227,7 +255,7 @@ class Protocol:
         if m.ensures is not None and not getattr(m, "ensures_on_call_only", False):
             for f in m.ensures(st, recv, vals, r) or ():
                 st.assume(f)
-        st.ghost.setdefault("uf_calls", []).append((str(recv.e), name, dict(vals), r))
+        st.ghost.setdefault("uf_calls", []).append((V.zstr(recv.e), name, dict(vals), r))
         return r
 
     def getattr(self, ip, st, obj, name):
@@ -252,7 +280,7 @@ class Protocol:
         if h is None or h == "uf":
             f = z3.Function(f"{self.kind}.has_{name}", obj.e.sort(), z3.BoolSort())
             r = mk_bool(f(obj.e))
-            st.ghost.setdefault("uf_calls", []).append((str(obj.e), f"hasattr:{name}", {}, r))
+            st.ghost.setdefault("uf_calls", []).append((V.zstr(obj.e), f"hasattr:{name}", {}, r))
             return r
         return h
 
@@ -298,7 +326,7 @@ class Protocol:
             for f in m.ensures(st, recv, vals, result) or ():
                 st.assume(f)
         st.event("call", recv, name, dict(vals), result)
-        st.ghost.setdefault("uf_calls", []).append((str(recv.e), name, dict(vals), result))
+        st.ghost.setdefault("uf_calls", []).append((V.zstr(recv.e), name, dict(vals), result))
         return result
 
 
